@@ -22,13 +22,50 @@ def rename(rat, fn):
     return Rat(rename_poly(rat.n, fn), rename_poly(rat.d, fn))
 
 
+ERR_FUNCS = set()
+
+
+def register_error_functions(prog):
+    """Names of all project functions whose last parameter is the error slot."""
+    if ERR_FUNCS:
+        return
+    for u in prog.units:
+        for f in list(u['functions']) + list(u['protos']):
+            if f['params'] and f['params'][-1]['T'] == 'struct _xrl_error **':
+                ERR_FUNCS.add(f['name'])
+
+
 def strip_err_text(s):
-    """Remove the trailing xrl_error** argument of every call in a symbol: f(Z,E,error) -> f(Z,E)."""
-    prev = None
-    while prev != s:
-        prev = s
-        s = ERR_ARG.sub(')', s)
-    return s
+    """Remove the trailing xrl_error** argument of every call to a function that has one: f(Z,0,error) -> f(Z,0)."""
+    out = []
+    i = 0
+    n = len(s)
+    # stack of (name, start index in out of '(' , index of last top-level comma in out)
+    stack = []
+    ident = re.compile(r'[A-Za-z_]\w*(?:#\d+)?')
+    while i < n:
+        m = ident.match(s, i)
+        if m and m.end() < n and s[m.end()] == '(':
+            out.append(m.group(0))
+            out.append('(')
+            stack.append([m.group(0).split('#')[0], len(out) - 1, None])
+            i = m.end() + 1
+            continue
+        ch = s[i]
+        if ch == '(':
+            stack.append([None, len(out), None])
+        elif ch == ',' and stack:
+            stack[-1][2] = len(out)
+        elif ch == ')' and stack:
+            name, start, comma = stack.pop()
+            if name in ERR_FUNCS:
+                if comma is not None:
+                    del out[comma:]
+                else:
+                    del out[start + 1:]
+        out.append(ch)
+        i += 1
+    return ''.join(out)
 
 
 def noerr(rat):
